@@ -210,7 +210,8 @@ def run():
         short = msg.split(" in ")[0]
         if L.SQLITE_VIOLATION.search(short):
             ck.stat("sqlite", "error:" + re.sub(r"\d+", "N", short)[:60])
-            report(r, "sqlite", "SQLite rejects the emitted SQL: " + short)
+            # the model's first scope diagnostic of the same text (if any) goes with the case: classifiers read arities from it
+            report(r, "sqlite", "SQLite rejects the emitted SQL: " + short, {"scope_diag": list(r["diags"][0])} if r.get("diags") else None)
         else:
             ck.stat("sqlite", "engine-gap:" + re.sub(r"\d+", "N", short)[:60])
 
